@@ -125,7 +125,50 @@ func (x *Exec) doCall(st *State, fr *Frame, instr ssa.Instruction, c *ssa.CallCo
 			k(st, res)
 			return true
 		}
+		// case split over the function values known to the run
+		var others []T
+		for _, cand := range x.candidates(st, sig) {
+			s2 := st.clone()
+			s2.assume(eq(fvT, cand.id))
+			others = append(others, not(eq(fvT, cand.id)))
+			x.callStatic(s2, fr, cand.fn, cand.fnv, sig, args, pos, k)
+		}
+		st.assume(and(others...))
 	}
+	x.dispatch(st, fr, callee, contract, calleeName, fnv, sig, args, pos, k)
+	return true
+}
+
+type funcCand struct {
+	id  T
+	fn  *ssa.Function
+	fnv *FnVal
+}
+
+// candidates lists the function values with signature sig that this run has
+// seen being created (package-level functions used as values, closures).
+func (x *Exec) candidates(st *State, sig *types.Signature) []funcCand {
+	var out []funcCand
+	for _, name := range sortedKeys(x.funcVals) {
+		f := x.funcVals[name]
+		if types.Identical(f.Signature, sig) {
+			out = append(out, funcCand{id: mkInt(int64(funcID(f))), fn: f})
+		}
+	}
+	for _, ref := range sortedKeys(st.closures) {
+		fv := st.closures[ref]
+		if types.Identical(fv.fn.Signature, sig) && len(fv.bindings) > 0 {
+			out = append(out, funcCand{id: T{ref, SInt}, fn: fv.fn, fnv: fv})
+		}
+	}
+	return out
+}
+
+func (x *Exec) callStatic(st *State, fr *Frame, callee *ssa.Function, fnv *FnVal, sig *types.Signature, args []Val, pos token.Pos, k func(*State, Val)) {
+	x.dispatch(st, fr, callee, x.contractFor(callee), callee.String(), fnv, sig, args, pos, k)
+}
+
+func (x *Exec) dispatch(st *State, fr *Frame, callee *ssa.Function, contract *Contract, calleeName string, fnv *FnVal, sig *types.Signature, args []Val, pos token.Pos, k func(*State, Val)) {
 	// inline?
 	if callee != nil && len(callee.Blocks) > 0 {
 		inline := false
@@ -140,7 +183,7 @@ func (x *Exec) doCall(st *State, fr *Frame, instr ssa.Instruction, c *ssa.CallCo
 		}
 		if inline {
 			x.inlineCall(st, fr, callee, fnv, args, pos, k)
-			return true
+			return
 		}
 	}
 	if vs := x.variants[calleeName]; len(vs) > 0 {
@@ -156,10 +199,9 @@ func (x *Exec) doCall(st *State, fr *Frame, instr ssa.Instruction, c *ssa.CallCo
 	if contract == nil {
 		res := x.havocCall(st, fr, calleeName, sig, args, pos)
 		k(st, res)
-		return true
+		return
 	}
 	x.applyContract(st, fr, contract, calleeName, sig, callee, args, fnv, pos, k)
-	return true
 }
 
 func topFrame(fr *Frame) *Frame {
